@@ -85,7 +85,8 @@ NearEl == <<
   <<"{", "{", "{">>,
   <<"*">>,
   <<"/", "*", "/">>,
-  <<"\"", "a", " ", "b", "\"">> >>
+  <<"\"", "a", " ", "b", "\"">>,
+  <<"\f">> >>
 CoreEl == <<
   <<"=">>,
   <<";">>,
@@ -113,7 +114,10 @@ Seps == <<
   <<" ">>,
   <<"\n">>,
   <<"\t">>,
-  <<" ", "\n", " ", " ">> >>
+  <<" ", "\n", " ", " ">>,
+  <<"\r", "\n">> >>
+\* what a text may START with (positions of every token then shift; a form feed is not white space)
+Lead == { <<" ">>, <<"\n">>, <<"\t">>, <<"\r">>, <<"\n", "\n", " ", " ">>, <<"\f">> }
 
 Rg(s) == { s[i] : i \in 1..Len(s) }
 Els == Rg(ValidEl) \cup Rg(NearEl)
@@ -124,6 +128,7 @@ RECURSIVE UpToS(_, _, _)
 UpToS(E, n, S) == IF n = 0 THEN {<<>>} ELSE LET r == UpToS(E, n - 1, S) IN r \cup { a \o b : a \in OneS(E, S), b \in r }
 UpTo(E, n) == UpToS(E, n, Sp)
 Texts == UpTo(Els, 1) \cup UpToS(Els, 2, { Seps[i] : i \in 1..PairSeps }) \cup UpTo(Rg(CoreEl), MaxCore)
+         \cup { l \o t : l \in Lead, t \in UpTo(Els, 1) \cup UpToS(Rg(CoreEl), 2, {<<>>, <<" ">>}) }
 
 ASSUME /\ ndJsonSerialize("gen_texts.ndjson", SetToSeq({ [text |-> t] : t \in Texts }))
        /\ PrintT(<<"GENERATED", Cardinality(Texts)>>)
